@@ -8,6 +8,8 @@ use std::{
 };
 
 use raw_unique_vector::RawUniqueVector;
+#[cfg(feature = "verif")]
+pub use raw_unique_vector::RawUniqueVectorHandle;
 
 use crate::{
   collections::{IndexedResult, VecBuilder},
